@@ -154,7 +154,6 @@ def r12_5(ctx):
     m = ctx.model
     fi = m.func('einfo:ExceptionInfo.__init__')
     fmt = [c for (n, c) in q.calls(fi, 'traceback.format_exception')]
-    q.need(fmt, 'ExceptionInfo.__init__ does not format the traceback')
     unp = None
     for n in walk_own(fi.node):
         if isinstance(n, ast.Assign) and isinstance(n.targets[0], ast.Tuple) and len(n.targets[0].elts) == 3:
@@ -166,11 +165,21 @@ def r12_5(ctx):
         ctx.ob('R12.5', 'ExceptionInfo:text-of-the-real-unlimited-traceback', ok, fi, c,
                'traceback.format_exception(%s%s)' % (', '.join(args), ''.join(', %s=%s' % (k.arg, ast.unparse(k.value)) for k in c.keywords)))
     vals = {ast.unparse(t): v for (dn, t, v) in q.assigns(fi, None) if v is not None}
+    q.need('self.traceback' in vals, 'ExceptionInfo.__init__ does not store the traceback text')
+    # whatever formatter is used, the text must be made from the traceback that was handed in (the third element of
+    # exc_info): an exception that was never raised -- the encoding-error record -- has no __traceback__ of its own
+    txt = ast.parse(q.expand(fi, vals['self.traceback']), mode='eval').body
+    from_tb = any(isinstance(x, ast.Name) and x.id == unp[2] for x in ast.walk(txt))
+    ctx.ob('R12.5', 'ExceptionInfo:text-made-from-the-given-traceback', from_tb, fi, vals['self.traceback'],
+           'self.traceback is formatted from `%s`' % unp[2] if from_tb else
+           'the text is no longer formatted from the traceback handed in (`%s`) but from the exception object: for a '
+           'record built around an exception that was never raised (MaybeEncodingError) the text names no frame'
+           % unp[2])
     ok = 'self.tb' in vals and ast.unparse(vals['self.tb']) == 'Traceback(%s)' % unp[2]
     ctx.ob('R12.5', 'ExceptionInfo:bounded-copy-with-default-limit', ok, fi, None, 'self.tb = Traceback(tb)')
     ok = 'self.exception' in vals and ast.unparse(vals['self.exception']) == 'ExceptionWithTraceback(%s, self.traceback)' % unp[1]
     ctx.ob('R12.5', 'ExceptionInfo:exception-wrapped-with-text', ok, fi, None, 'ExceptionWithTraceback(exception, self.traceback)')
-    ok = 'self.traceback' in vals and ast.unparse(vals['self.traceback']).replace(' ', '').startswith("''.join(traceback.format_exception(")
+    ok = 'self.traceback' in vals and (not fmt or ast.unparse(vals['self.traceback']).replace(' ', '').startswith("''.join(traceback.format_exception("))
     ctx.ob('R12.5', 'ExceptionInfo:text-is-joined-lines', ok, fi, None, "''.join(format_exception(...))")
     rb = m.func('einfo:rebuild_exc')
     P = rb.positional_params()
@@ -194,11 +203,20 @@ def run(ctx):
     r12_3(ctx)
     r12_4(ctx)
     r12_5(ctx)
+    # every frame / code stand-in mirrors the very object it was made from: no stand-in is shared between two
+    # different code objects through a table keyed by less than the object, or through class-level state
+    from .generic import memo_key_covers_inputs, per_instance_state
+    memo_key_covers_inputs(ctx, 'R12.6', ['einfo'], floor=0, witness=['managers'])
+    per_instance_state(ctx, 'R12.7', ['einfo'], floor=0, witness=['pool'])
 
 
-_E = 'billiard/einfo.py'
+_E ='billiard/einfo.py'
 _P = 'billiard/pool.py'
 MUTANTS = [
+    ('text-formatted-from-the-exception-object', _E, "                traceback.format_exception(self.type, exception, tb),\n",
+     "                traceback.TracebackException.from_exception(exception).format(),\n", 'R12.5'),
+    ('code-stand-ins-cached-by-name', _E, "        self.f_code = self.Code(frame.f_code)\n",
+     "        key = (frame.f_code.co_filename, frame.f_code.co_name)\n        if key not in _Frame._codes:\n            _Frame._codes[key] = self.Code(frame.f_code)\n        self.f_code = _Frame._codes[key]\n", 'R12.6'),
     ('encoding-error-args-hold-the-raw-error', _P, "        super().__init__(self.exc, self.value)", "        super().__init__(exc, self.value)", 'R12.3'),
     ('encoding-error-args-hold-the-raw-value', _P, "        super().__init__(self.exc, self.value)", "        super().__init__(self.exc, value)", 'R12.3'),
     ('reduce-swapped', _E, "        return rebuild_exc, (self.exc, self.tb)", "        return rebuild_exc, (self.tb, self.exc)", 'R12.1'),
